@@ -157,9 +157,10 @@ Proof.
   destruct (Z.eqb_spec 0 (enc_arith (d_major d) (d_minor d))); [lia|reflexivity].
 Qed.
 
-Lemma terminal_lookup devs r t n :
+Lemma terminal_lookup masked devs r t n :
   wf_kstat r = true -> fld 7 r = Some t -> parse_int t = Some n ->
-  terminal devs (k_stat r) = Val (last_rdev n devs None).
+  terminal masked devs (k_stat r)
+  = Val (last_rdev (if masked then Z.land n 4294967295 else n) devs None).
 Proof.
   intros H Hf Hn. destruct (stat_roundtrip r H) as (x & Hx & Hp).
   pose proof (spec_pstat_fields r x Hx) as (_ & _ & _ & F7 & _).
@@ -168,15 +169,27 @@ Proof.
   unfold terminal_map. rewrite tmap_get_fold. reflexivity.
 Qed.
 
-(* a task whose controlling terminal is device (M, m): the path of that device node *)
+Ltac Zify.zify_post_hook ::= Z.div_mod_to_equations.
+Lemma enc_arith_u32 M m : 0 <= M < 4096 -> 0 <= m < 1048576 -> 0 <= enc_arith M m < 4294967296.
+Proof. unfold enc_arith. intros. lia. Qed.
+Lemma mask_int32 u : 0 <= u < 4294967296 -> Z.land (as_int32 u) 4294967295 = u.
+Proof.
+  intros Hu. change 4294967295 with (2 ^ 32 - 1). rewrite land_ones_mod by lia.
+  change (2 ^ 32) with 4294967296. unfold as_int32. destruct (u <? 2147483648); lia.
+Qed.
+Ltac Zify.zify_post_hook ::= idtac.
+
+(* a task whose controlling terminal is device (M, m), for the whole minor range of the
+   kernel: the path of that device node *)
 Theorem terminal_exact devs r M m t :
   wf_kstat r = true -> forallb wf_dev devs = true ->
-  1 <= M < 4096 -> 0 <= m < 524288 ->
+  1 <= M < 4096 -> 0 <= m < 1048576 ->
   fld 7 r = Some t -> parse_int t = Some (as_int32 (kernel_encode_dev M m)) ->
-  terminal (map dev_entry devs) (k_stat r) = Val (spec_terminal M m devs None).
+  terminal true (map dev_entry devs) (k_stat r) = Val (spec_terminal M m devs None).
 Proof.
-  intros H Hd HM Hm Hf Ht. rewrite (terminal_lookup _ r t _ H Hf Ht).
-  rewrite kernel_encode_arith, enc_arith_int32 by lia.
+  intros H Hd HM Hm Hf Ht. rewrite (terminal_lookup true _ r t _ H Hf Ht).
+  rewrite kernel_encode_arith by lia.
+  rewrite mask_int32 by (apply enc_arith_u32; lia).
   rewrite <- (glibc_makedev_arith M m) by lia.
   f_equal. apply last_rdev_spec; (lia || assumption).
 Qed.
@@ -184,9 +197,9 @@ Qed.
 (* a task without controlling terminal (tty_nr 0): None *)
 Theorem terminal_none devs r :
   wf_kstat r = true -> forallb wf_dev devs = true -> fld 7 r = Some [48] ->
-  terminal (map dev_entry devs) (k_stat r) = Val None.
+  terminal true (map dev_entry devs) (k_stat r) = Val None.
 Proof.
-  intros H Hd Hf. rewrite (terminal_lookup _ r [48] 0 H Hf eq_refl).
+  intros H Hd Hf. rewrite (terminal_lookup true _ r [48] 0 H Hf eq_refl).
   f_equal. now apply last_rdev_zero.
 Qed.
 
@@ -200,19 +213,21 @@ Example ex_terminal :
   /\ spec_terminal 136 0 ex_devs None = Some (bs "/dev/pts/0").
 Proof. vm_compute. repeat split; reflexivity. Qed.
 
-(* minor >= 2^19: the encoded number has bit 31 set, the kernel prints its `int tty_nr`
-   as a negative number, and the lookup misses the node although it is listed *)
+(* the code before commit 2414912 (masked = false): for minor >= 2^19 the encoded number has
+   bit 31 set, the kernel prints its `int tty_nr` as a negative number, and the lookup
+   missed the node although it is listed *)
 Definition hi_kstat : kstat :=
   {| k_pid := bs "4242"; k_comm := bs "sh";
      k_after := bs "S" :: bs "1" :: bs "4242" :: bs "4242" :: bs "-2147448832" :: bs "-1"
                 :: map (fun n => bs "0") (seq 0 46) |}.
 Definition hi_devs : list devnode := [ {| d_path := bs "/dev/pts/524288"; d_major := 136; d_minor := 524288 |} ].
-Theorem terminal_high_minor_refuted :
+Theorem terminal_signed_refuted :
   exists r devs M m t,
     wf_kstat r = true /\ forallb wf_dev devs = true /\ 1 <= M < 4096 /\ 0 <= m < 1048576 /\
     fld 7 r = Some t /\ parse_int t = Some (as_int32 (kernel_encode_dev M m)) /\
     spec_terminal M m devs None = Some (bs "/dev/pts/524288") /\
-    terminal (map dev_entry devs) (k_stat r) = Val None.
+    terminal false (map dev_entry devs) (k_stat r) = Val None /\
+    terminal true (map dev_entry devs) (k_stat r) = Val (Some (bs "/dev/pts/524288")).
 Proof.
   exists hi_kstat, hi_devs, 136, 524288, (bs "-2147448832").
   vm_compute. repeat split; try reflexivity; discriminate.
